@@ -56,14 +56,31 @@ theorem C10_set_slice_other (h : Hdr) (t : Ty) (hns : ∀ k, t ≠ .set k) (f : 
     setSliceMangler.mangle h t = .ok [(h, t)] ∧ setSliceMangler.unmangle h t [(f, v)] = .ok v := by
   cases t <;> simp_all [setSliceMangler]
 
+/-- slice / map / set types: parse.String returns these as they are, every other type behind a pointer -/
+def isColl : Ty → Bool
+  | .slice _ => true
+  | .map _ _ => true
+  | .set _ => true
+  | _ => false
+
 /-- string casting: every field becomes a *string; an unset string reverses to an unset value, a set
-one to exactly what parse.String makes of its text for the field's (pointee) type. -/
+one to exactly what parse.String makes of its text for the field's type: the pointee type for a
+pointerified scalar, the collection type itself for a slice / map / set field, and the boxed
+collection for a pointer-to-collection field. -/
 theorem C10_string_cast (parse : String → Ty → Outcome Val) (h : Hdr) (t : Ty) (f : FT) (str : String) :
     (stringCastMangler parse).mangle h t = .ok [(h, strPtrTy)] ∧
     (stringCastMangler parse).unmangle h t [(f, .nilv)] = .ok .nilv ∧
-    (stringCastMangler parse).unmangle h (.ptr t) [(f, .ptr (.s str))] = parse str t := by
-  refine ⟨by simp [stringCastMangler], by simp [stringCastMangler], ?_⟩
-  simp [stringCastMangler]
+    (isColl t = false → (stringCastMangler parse).unmangle h (.ptr t) [(f, .ptr (.s str))] = parse str t) ∧
+    (isColl t = true → (stringCastMangler parse).unmangle h t [(f, .ptr (.s str))] = parse str t) ∧
+    (isColl t = true → ∀ v, parse str t = .ok v →
+      (stringCastMangler parse).unmangle h (.ptr t) [(f, .ptr (.s str))] = .ok (.ptr v)) := by
+  refine ⟨by simp [stringCastMangler], by simp [stringCastMangler], ?_, ?_, ?_⟩
+  · intro hc
+    cases t <;> simp_all [stringCastMangler, isColl] <;> (cases parse str _ <;> rfl)
+  · intro hc
+    cases t <;> simp_all [stringCastMangler, isColl] <;> (cases parse str _ <;> rfl)
+  · intro hc v hv
+    cases t <;> simp_all [stringCastMangler, isColl]
 
 /-- text-unmarshaler mangler: only text-unmarshalable fields change (to *string); unset stays unset. -/
 theorem C10_text_unmarshaler (h : Hdr) (t : Ty) (f : FT) (v : Val) :
